@@ -408,15 +408,25 @@ func RandomManifest(t *rapid.T, root string, o ManifestOpts) *Schema {
 // CustomTyperefSource is the hand-written implementation of a custom typeref, in the shape of upstream's example
 // (internal/tests/testdata/generated_extras/extras/Temperature.go): a named type over the primitive and the four functions
 // the generated code refers to, plus Pointer().
+// CaseInsensitiveTyperef is the name of the custom typeref of the resource corpus whose values are equal up to case.
+const CaseInsensitiveTyperef = "CaseId"
+
 func CustomTyperefSource(root string, n *Named, fnv1aImport string) string {
 	gt := map[string]string{"int32": "int32", "int64": "int64", "float32": "float32", "float64": "float64", "bool": "bool", "string": "string", "bytes": "[]byte"}[n.Prim]
 	hn := map[string]string{"int32": "Int32", "int64": "Int64", "float32": "Float32", "float64": "Float64", "bool": "Bool", "string": "String", "bytes": "Bytes"}[n.Prim]
 	var b strings.Builder
 	fmt.Fprintf(&b, "package %s\n\n// hand-written custom typeref (verif)\n\nimport (\n", PackageName(PackagePath(root, n.Namespace)))
 	eq := "a == b"
+	hashArg := fmt.Sprintf("%s(v)", gt)
 	if n.Prim == "bytes" {
 		b.WriteString("\t\"bytes\"\n\n")
 		eq = "bytes.Equal(a, b)"
+	}
+	if n.Name == CaseInsensitiveTyperef && n.Prim == "string" {
+		// an identifier type that compares without regard to case: equality and hash are coarser than ==
+		b.WriteString("\t\"strings\"\n\n")
+		eq = "strings.EqualFold(string(a), string(b))"
+		hashArg = "strings.ToLower(string(v))"
 	}
 	fmt.Fprintf(&b, "\t%q\n)\n\n", fnv1aImport)
 	N := n.Name
@@ -424,7 +434,7 @@ func CustomTyperefSource(root string, n *Named, fnv1aImport string) string {
 	fmt.Fprintf(&b, "func Marshal%s(v %s) (%s, error) { return %s(v), nil }\n\n", N, N, gt, gt)
 	fmt.Fprintf(&b, "func Unmarshal%s(p %s) (%s, error) { return %s(p), nil }\n\n", N, gt, N, N)
 	fmt.Fprintf(&b, "func Equals%s(a, b %s) bool { return %s }\n\n", N, N, eq)
-	fmt.Fprintf(&b, "func ComputeHash%s(v %s) fnv1a.Hash { return fnv1a.Hash%s(%s(v)) }\n\n", N, N, hn, gt)
+	fmt.Fprintf(&b, "func ComputeHash%s(v %s) fnv1a.Hash { return fnv1a.Hash%s(%s) }\n\n", N, N, hn, hashArg)
 	fmt.Fprintf(&b, "func (v %s) Pointer() *%s { return &v }\n", N, N)
 	return b.String()
 }
